@@ -1,9 +1,12 @@
 #!/bin/bash
-# usage: tools/mut.sh <seed name e.g. C04_m1> <property> [extra check args]: run a check against a scratch copy with the seeded change
+# usage: tools/mut.sh <seed name e.g. C04_m1> <property> [extra check args]: run a check against a scratch copy with the seeded change.
+# The evidence file of the property (written by the check) is put back afterwards: committed evidence describes the unchanged tree.
 seed=$1; prop=$2; shift; shift
 scr=$(mktemp -d /tmp/scrXXXX)
 cp -r /repo/space_packet_parser $scr/
 (cd $scr && patch -s -p1 < /verif/seeded/$seed/patch.diff) || { echo "patch failed"; rm -rf $scr; exit 2; }
+[ -f /verif/evidence/$prop.json ] && cp /verif/evidence/$prop.json $scr/evidence.keep
 cd /verif && SPP_REPO=$scr python3-vt checks/check.py $prop "$@"; rc=$?
+[ -f $scr/evidence.keep ] && cp $scr/evidence.keep /verif/evidence/$prop.json
 rm -rf $scr
 echo "rc=$rc"
